@@ -18,6 +18,7 @@ structure Val where
 instance : Add Val := ⟨fun a b => ⟨a.re + b.re, a.im + b.im⟩⟩
 instance : Zero Val := ⟨⟨0, 0⟩⟩
 def Val.divNat (v : Val) (n : Nat) : Val := ⟨v.re / (n : Rat), v.im / (n : Rat)⟩
+instance : Mul Val := ⟨fun a b => ⟨a.re * b.re - a.im * b.im, a.re * b.im + a.im * b.re⟩⟩
 
 /-- `type(ds)` -/
 inductive DsClass | base | d2 | d3 | d4 | d4stem
@@ -169,6 +170,10 @@ inductive RsArg
   | outShape (o : List Int) | factor1 (f : Rat) | factors (fs : List Rat) | both | neither
   deriving Repr, Inhabited
 
+/-- which reduction over the scan axes: `get_dp_mean`, `get_dp_max`, `get_dp_median` -/
+inductive DpKind | mean | max | median
+  deriving DecidableEq, Repr, Inhabited
+
 inductive Op
   | copy
   | setOrigin (v : NdInfo)
@@ -181,6 +186,9 @@ inductive Op
   | bin (f : FacArg) (axes : AxesArg) (mean : Bool) (badReducer : Bool) (inplace : Bool)
   | resample (arg : RsArg) (axes : AxesArg) (inplace : Bool)
   | getitem (ix : List Item)
+  | dpReduce (kind : DpKind)                                 -- Dataset4dstem.get_dp_mean / _max / _median(attach=False)
+  | virtualImage (maskShape : List Nat) (mask : List Val)    -- Dataset4dstem.get_virtual_image(mask=…, attach=False)
+  | frame (k : Nat)                                          -- Dataset3d.to_dataset2d()[k]
   deriving Repr, Inhabited
 
 /-- well-formed operation arguments: an array handed to the `array` setter is a NumPy array -/
@@ -435,6 +443,53 @@ def getitem (d : Ds) (ix : List Item) : Except Err Ds :=
     fromArray cls' shape' (planData d p) d.kind (some (.list origin')) (some (.list sampling'))
       (some (.list units'))
 
+/-! ### subclass methods that return datasets (dataset4dstem.py, dataset3d.py) -/
+
+/-- `l[-2:]` -/
+def last2 {β : Type} (l : List β) : List β := l.drop (l.length - 2)
+
+/-- `np.mean(array, axis=(0, 1))` of a 4-D array: exact mean over the scan positions -/
+def dpMeanData (shape : List Nat) (dat : List Val) : List Val :=
+  let a : Arr Val := ⟨shape, dat⟩
+  let n := shape.getD 0 0 * shape.getD 1 0
+  (build (shape.drop 2) fun j =>
+    (((allIdx (shape.take 2)).map fun s => a.get (s ++ j)).sum).divNat n).data
+
+/-- `Dataset4dstem.get_dp_mean / get_dp_max / get_dp_median (attach=False)`:
+`Dataset2d.from_array(reduce(array, axis=(0,1)), origin=self.origin[-2:], sampling=self.sampling[-2:],
+units=self.units[-2:])`.  Values are tracked for the mean only. -/
+def dpReduce (d : Ds) (kind : DpKind) : Except Err Ds :=
+  if d.cls ≠ .d4stem then .error .attribute else       -- methods of Dataset4dstem only
+  let data' : Option (List Val) := match kind with
+    | .mean => d.data.map (dpMeanData d.shape)
+    | _ => none
+  -- mean / median of integers are floats; max keeps the dtype
+  let kind' := match kind with
+    | .max => d.kind
+    | _ => if d.kind == .int then Kind.float else d.kind
+  fromArray .d2 (d.shape.drop 2) data' kind' (some (.list (last2 d.origin))) (some (.list (last2 d.sampling)))
+    (some (.list (last2 d.units)))
+
+/-- `np.sum(array * mask, axis=(-1, -2))` -/
+def virtualImageData (shape : List Nat) (dat mask : List Val) : List Val :=
+  let a : Arr Val := ⟨shape, dat⟩
+  let m : Arr Val := ⟨shape.drop 2, mask⟩
+  (build (shape.take 2) fun s =>
+    ((allIdx (shape.drop 2)).map fun j => a.get (s ++ j) * m.get j).sum).data
+
+/-- `Dataset4dstem.get_virtual_image(mask=mask, attach=False)`:
+`Dataset2d.from_array(sum(array*mask, axis=(-1,-2)), origin=self.origin[0:2], …)` -/
+def virtualImage (d : Ds) (maskShape : List Nat) (mask : List Val) : Except Err Ds :=
+  if d.cls ≠ .d4stem then .error .attribute else
+  if maskShape ≠ last2 d.shape then .error .value else   -- "Mask shape … does not match diffraction pattern shape"
+  fromArray .d2 (d.shape.take 2) (d.data.map fun dat => virtualImageData d.shape dat mask) d.kind
+    (some (.list (d.origin.take 2))) (some (.list (d.sampling.take 2))) (some (.list (d.units.take 2)))
+
+/-- `Dataset3d.to_dataset2d()[k]`: the list `[self[i] for i in range(self.shape[0])]` -/
+def frame (d : Ds) (k : Nat) : Except Err Ds :=
+  if d.cls ≠ .d3 then .error .attribute else
+  if k < d.shape.getD 0 0 then getitem d [.int (k : Int)] else .error .index
+
 /-! ### the state machine -/
 
 /-- one public operation: the receiver afterwards and the dataset returned (if any) -/
@@ -460,6 +515,15 @@ def step (d : Ds) : Op → Except Err (Ds × Option Ds)
   | .bin f a m b ip => bin d f a m b ip
   | .resample a ax ip => resample d a ax ip
   | .getitem ix => match getitem d ix with
+      | .error e => .error e
+      | .ok r => .ok (d, some r)
+  | .dpReduce k => match dpReduce d k with
+      | .error e => .error e
+      | .ok r => .ok (d, some r)
+  | .virtualImage ms m => match virtualImage d ms m with
+      | .error e => .error e
+      | .ok r => .ok (d, some r)
+  | .frame k => match frame d k with
       | .error e => .error e
       | .ok r => .ok (d, some r)
 
